@@ -1390,3 +1390,54 @@ def rf118(run, for_c):
     if n < 3:
         raise F.AnalysisBroken('%s: only %d floating-point conversions found' % (rule, n))
     return n
+
+
+# ---------------------------------------------------------------------------------------------
+# RF121: labels created with an explicit number keep the label counter of the context ahead
+# ---------------------------------------------------------------------------------------------
+
+def rf121(run):
+    rule = 'RF121'
+    run.rule(rule, 'labels are identified by their number when a module is written.  MIR_new_label numbers them with ++curr_label_num; every '
+                   'other creator (create_label with a number taken from a binary file or from the relabelling counter of the inliner) is '
+                   'followed, in the same function or in the function that drives it, by an assignment that brings ctx->curr_label_num '
+                   'up to the numbers used.  Otherwise a label created later by MIR_new_label (make_one_ret while loading) repeats a number '
+                   'of the function, and after the next MIR_write / MIR_read the two are one label')
+    tu = run.tu('mir')
+    cg = tu.callgraph()
+    callers = {}
+    for g, cs in cg.items():
+        for c in cs:
+            callers.setdefault(c, set()).add(g)
+
+    def sets_counter(g):
+        return any(x['k'] in ('BinaryOperator', 'CompoundAssignOperator') and x['op'].endswith('=') and x['op'] not in ('==', '!=', '<=', '>=')
+                   and F.src(F.strip(x['c'][0])).replace(' ', '').endswith('->curr_label_num') for x in g.walk()) or \
+            any(x['k'] == 'UnaryOperator' and x['op'] in ('++',) and F.src(F.strip(x['c'][0])).replace(' ', '').endswith('->curr_label_num') for x in g.walk())
+    n = 0
+    for g in tu.func_list:
+        if g.body is None or not g.file.startswith('/repo'):
+            continue
+        sites = [x for x in g.walk() if x['k'] == 'CallExpr' and x.get('callee') == 'create_label']
+        if not sites:
+            continue
+        run.functions_analysed.add(('mir', g.name))
+        n += 1
+        ok = sets_counter(g)
+        via = g.name if ok else None
+        if not ok:
+            level = {g.name}
+            for _ in range(2):
+                level = set().union(*[callers.get(h, set()) for h in level]) if level else set()
+                hit = [h for h in sorted(level) if h in tu.funcs and tu.funcs[h].body is not None and sets_counter(tu.funcs[h])]
+                if hit and all(h in tu.funcs and sets_counter(tu.funcs[h]) for h in level):
+                    ok, via = True, hit[0]
+                    break
+        run.ob(rule, (g.name,), ok, {'creator': g.name, 'counter advanced in': via})
+        if not ok:
+            run.violation(rule, g, 'label numbers outside the counter', '%s creates labels with explicit numbers (line %d) and neither it nor every '
+                          'function that drives it advances ctx->curr_label_num: a label made later by MIR_new_label can repeat one of these '
+                          'numbers, and the binary form, which names labels by number, merges the two' % (g.name, sites[0]['l']), line=sites[0]['l'])
+    if n < 3:
+        raise F.AnalysisBroken('RF121: only %d creators of labels found' % n)
+    return n
